@@ -38,6 +38,7 @@ double verif_sym_double(const char *name) {
   return v;
 }
 double verif_sym_double_ad(const char *name) { return verif_sym_double(name); }
+double verif_ad_seed(double value, const char *name) { return perturb_name == name ? value + perturb_delta : value; }
 long verif_sym_int(const char *name, long lo, long hi) {
   if (has(name)) return strtol(inputs[name].c_str(), nullptr, 10);
   unsigned long span = (unsigned long) (hi - lo) + 1; if (span == 0 || span > 16) span = 16;
@@ -73,6 +74,7 @@ void verif_out_str(const char *name, const char *s) { printf("OUTS %s %s\n", nam
 void verif_note(const char *text) { }
 void verif_stop(void) { fflush(stdout); exit(fails ? 1 : 0); }
 void verif_log_accesses(int on) { }
+long verif_param(const char *name, long dflt) { std::string k = std::string("param.") + name; if (has(k.c_str())) return strtol(inputs[k].c_str(), nullptr, 10); return dflt; }
 void verif_need_module(void) { static colvarproxy_stub *p = nullptr; if (!p && !cvm::main()) p = new colvarproxy_stub(); }
 }
 
